@@ -795,3 +795,544 @@ func deref(t types.Type) types.Type {
 	}
 	return t
 }
+
+// ---------------------------------------------------------------------------
+// CONTRA/stale-test (C01, C02): a contradiction rule. A test `x.f == c2` that
+// is dominated by the store `x.f = c1` (c1 ≠ c2) of the same object, with no
+// call and no other store to f in between, can never hold: either the test or
+// the store is wrong (the collector's `Unsend` testing the receiver it has just
+// reset instead of the child it is looking at).
+
+func ruleStaleTest(c *Ctx) {
+	p := c.P
+	n := 0
+	for _, fn := range p.Repo {
+		top := TopLevel(fn)
+		if top.Pkg == nil {
+			continue
+		}
+		switch top.Pkg.Pkg.Name() {
+		case "server", "rescache", "codec", "nats", "rpc":
+		default:
+			continue
+		}
+		// constant stores to fields in this function
+		type cst struct {
+			st   *ssa.Store
+			fa   *ssa.FieldAddr
+			f    *types.Var
+			k    int64
+			isOK bool
+		}
+		var stores []cst
+		for _, in := range instrsOf(fn) {
+			st, ok := in.(*ssa.Store)
+			if !ok {
+				continue
+			}
+			fa, ok := st.Addr.(*ssa.FieldAddr)
+			if !ok {
+				continue
+			}
+			f := fieldOfAddr(fa)
+			if f == nil {
+				continue
+			}
+			if k, isC := constInt(st.Val); isC {
+				stores = append(stores, cst{st, fa, f, k, true})
+			} else if b, isB := constBool(st.Val); isB {
+				k := int64(0)
+				if b {
+					k = 1
+				}
+				stores = append(stores, cst{st, fa, f, k, true})
+			}
+		}
+		if len(stores) == 0 {
+			continue
+		}
+		for _, b := range fn.Blocks {
+			i := blockIf(b)
+			if i == nil {
+				continue
+			}
+			var x ssa.Value
+			var k2 int64
+			eq := true
+			if bo, ok := i.Cond.(*ssa.BinOp); ok && (bo.Op == token.EQL || bo.Op == token.NEQ) {
+				if k, isC := constInt(bo.Y); isC {
+					x, k2, eq = bo.X, k, bo.Op == token.EQL
+				} else if k, isC := constInt(bo.X); isC {
+					x, k2, eq = bo.Y, k, bo.Op == token.EQL
+				}
+			}
+			if x == nil {
+				continue
+			}
+			u, ok := x.(*ssa.UnOp)
+			if !ok || u.Op != token.MUL {
+				continue
+			}
+			lfa, ok := u.X.(*ssa.FieldAddr)
+			if !ok {
+				continue
+			}
+			lf := fieldOfAddr(lfa)
+			for _, s := range stores {
+				if s.f != lf || s.fa.X != lfa.X || s.k == k2 {
+					continue
+				}
+				sb := s.st.Block()
+				if sb == b {
+					continue // a loop over one block: not the shape looked for
+				}
+				if !sb.Dominates(b) {
+					continue
+				}
+				// blocks between: reachable from the store's block and reaching the test
+				reach := map[*ssa.BasicBlock]bool{}
+				var fw func(x *ssa.BasicBlock)
+				fw = func(x *ssa.BasicBlock) {
+					if reach[x] {
+						return
+					}
+					reach[x] = true
+					for _, sx := range x.Succs {
+						fw(sx)
+					}
+				}
+				for _, sx := range sb.Succs {
+					fw(sx)
+				}
+				back := map[*ssa.BasicBlock]bool{}
+				var bw func(x *ssa.BasicBlock)
+				bw = func(x *ssa.BasicBlock) {
+					if back[x] {
+						return
+					}
+					back[x] = true
+					for _, px := range x.Preds {
+						bw(px)
+					}
+				}
+				bw(b)
+				clean := true
+				scan := func(ins []ssa.Instruction) {
+					for _, in := range ins {
+						switch y := in.(type) {
+						case ssa.CallInstruction:
+							if _, isB := y.Common().Value.(*ssa.Builtin); !isB {
+								clean = false
+							}
+						case *ssa.Store:
+							if fa2, ok := y.Addr.(*ssa.FieldAddr); ok && fieldOfAddr(fa2) == lf && y != s.st {
+								clean = false
+							}
+							if _, isFA := y.Addr.(*ssa.FieldAddr); !isFA {
+								if _, isAl := y.Addr.(*ssa.Alloc); !isAl {
+									clean = false // a store through some other pointer
+								}
+							}
+						}
+					}
+				}
+				// the store's own block after the store
+				after := false
+				for _, in := range sb.Instrs {
+					if in == ssa.Instruction(s.st) {
+						after = true
+						continue
+					}
+					if after {
+						scan([]ssa.Instruction{in})
+					}
+				}
+				for _, blk := range fn.Blocks {
+					if blk != sb && reach[blk] && back[blk] {
+						scan(blk.Instrs)
+					}
+				}
+				if !clean {
+					continue
+				}
+				n++
+				c.inst(1)
+				verdict := "false"
+				if !eq {
+					verdict = "true"
+				}
+				c.viol(fnName(fn), "no test contradicts a store that dominates it", p.InstrPos(i), fmt.Sprintf("%s.%s is set to %d at %s and nothing can change it before it is tested against %d here: the test is always %s — either the test looks at the wrong object or the store is misplaced", fieldOwner(p, lf), lf.Name(), s.k, p.InstrPos(s.st), k2, verdict))
+			}
+		}
+	}
+	c.inst(1)
+	if n == 0 {
+		c.ok("repository", "no test contradicts a store that dominates it", "-", "no field is tested against a constant other than the one a dominating store of the same object has just given it")
+	}
+}
+
+// ---------------------------------------------------------------------------
+// DOM/error-wins (C05, C04, C15): a service answer that carries an `error`
+// member is an error answer, whatever else it carries. Every path of a response
+// decoder that returns success has established that the decoded Error is nil.
+
+func ruleErrorWins(c *Ctx) {
+	p := c.P
+	n := 0
+	for _, fn := range p.Repo {
+		if fn.Parent() != nil || fn.Pkg == nil || fn.Pkg.Pkg.Name() != "codec" || !strings.HasPrefix(fn.Name(), "Decode") {
+			continue
+		}
+		res := fn.Signature.Results()
+		if res.Len() == 0 {
+			continue
+		}
+		lastT := res.At(res.Len() - 1).Type()
+		if !isErrorType(lastT) && !strings.HasSuffix(lastT.String(), "reserr.Error") {
+			continue
+		}
+		isErrField := func(f *types.Var) bool {
+			return f != nil && f.Name() == "Error" && strings.HasSuffix(f.Type().String(), "reserr.Error")
+		}
+		loads := false
+		for _, g := range p.withHelpers(fn) {
+			for _, in := range instrsOf(g) {
+				if v, ok := in.(ssa.Value); ok {
+					if f, _ := fieldLoad(v); isErrField(f) {
+						loads = true
+					}
+				}
+			}
+		}
+		if !loads {
+			continue
+		}
+		n++
+		c.inst(1)
+		sp := &Spec{InlineHelpers: true}
+		sp.Classify = func(t *Tracer, fr *Frame, in ssa.Instruction) []Ev {
+			if r, ok := in.(*ssa.Return); ok && fr == t.RootFr {
+				if isNilConst(t.Resolve(fr, r.Results[len(r.Results)-1]).V) {
+					return []Ev{{Kind: "return:ok"}}
+				}
+				return []Ev{{Kind: "return:err"}}
+			}
+			return nil
+		}
+		sp.Branch = func(t *Tracer, fr *Frame, i *ssa.If, dir bool) []Ev {
+			x, nn, ok := nilTest(i, dir)
+			if !ok {
+				return nil
+			}
+			if f, _ := fieldLoad(t.Resolve(fr, x).V); isErrField(f) {
+				if nn {
+					return []Ev{{Kind: "error!=nil"}}
+				}
+				return []Ev{{Kind: "error=nil"}}
+			}
+			return nil
+		}
+		tr := runTrace(p, fn, sp)
+		bad := ""
+		nOK := 0
+		for _, path := range tr.Paths {
+			if !hasKind(path, "return:ok") {
+				continue
+			}
+			nOK++
+			if !hasKind(path, "error=nil") {
+				bad = "a success return on a path that has not established that the answer's error member is absent: an answer carrying both an error and a result is taken for the result (an access error with a result grants access): " + tr.FmtPath(path)
+			}
+		}
+		if tr.Trunc {
+			bad = "path budget exhausted"
+		}
+		c.check(bad == "", fnName(fn), "an answer that carries an error is decoded as that error", p.Pos(fn.Pos()), fmt.Sprintf("%d paths, %d return success, all under error == nil", len(tr.Paths), nOK), bad)
+	}
+	if n == 0 {
+		c.viol("codec.Decode*", "an answer that carries an error is decoded as that error", "-", "no response decoder found")
+	}
+}
+
+// ---------------------------------------------------------------------------
+// FIFO/handler-sync (C06, C03): what the messaging system delivers in order is
+// taken in in order. The handler given to mq.Subscribe — and everything it
+// calls synchronously up to the hand-over to a queue — starts no goroutine: a
+// `go` there lets a later message (an event right behind a system.reset)
+// overtake an earlier one.
+
+func ruleHandlerSync(c *Ctx) {
+	p := c.P
+	sub := p.Method("mq.Client.Subscribe")
+	if sub == nil {
+		c.undecided("mq.Client.Subscribe", "anchor", "-", "not found")
+		return
+	}
+	n := 0
+	for _, fn := range p.Repo {
+		top := TopLevel(fn)
+		if top.Pkg == nil || (top.Pkg.Pkg.Name() != "rescache" && top.Pkg.Pkg.Name() != "server") {
+			continue
+		}
+		for _, call := range callsIn(fn) {
+			if _, ok := isCallTo(call, sub); !ok {
+				continue
+			}
+			args := callArgs(call.Common())
+			var h *ssa.Function
+			switch x := stripConv(args[len(args)-1]).(type) {
+			case *ssa.MakeClosure:
+				h = x.Fn.(*ssa.Function)
+			case *ssa.Function:
+				h = x
+			}
+			if h == nil {
+				continue
+			}
+			if h.Synthetic != "" {
+				if m := boundMethod(h); m != nil {
+					if mf := p.SSA.FuncValue(m); mf != nil && len(mf.Blocks) > 0 {
+						h = mf
+					}
+				}
+			}
+			n++
+			c.inst(1)
+			seen := map[*ssa.Function]bool{}
+			bad := ""
+			var walk func(f *ssa.Function, chain string, d int)
+			walk = func(f *ssa.Function, chain string, d int) {
+				if seen[f] || d > 8 || bad != "" {
+					return
+				}
+				seen[f] = true
+				for _, in := range instrsOf(f) {
+					if g, isGo := in.(*ssa.Go); isGo {
+						bad = "the message handler starts a goroutine (" + p.InstrPos(g) + ", reached through " + chain + "): messages delivered in order are processed out of order — an event right behind a system.reset is delivered before the reset's re-validation holds it back"
+						return
+					}
+					cl, ok := in.(ssa.CallInstruction)
+					if !ok {
+						continue
+					}
+					if _, isDefer := in.(*ssa.Defer); isDefer {
+						continue
+					}
+					if sf := cl.Common().StaticCallee(); sf != nil && p.isRepoFn(sf) && len(sf.Blocks) > 0 {
+						walk(sf, chain+" → "+fnName(sf), d+1)
+					} else if mc, isMC := cl.Common().Value.(*ssa.MakeClosure); isMC {
+						walk(mc.Fn.(*ssa.Function), chain+" → closure", d+1)
+					}
+				}
+			}
+			walk(h, fnName(h), 0)
+			c.check(bad == "", fnName(h), "the message handler takes messages in synchronously, in arrival order", p.InstrPos(call), fmt.Sprintf("%d functions reached synchronously, no go statement", len(seen)), bad)
+		}
+	}
+	if n == 0 {
+		c.viol("mq.Client.Subscribe", "the message handler takes messages in synchronously, in arrival order", "-", "no subscription handler found")
+	}
+}
+
+// ---------------------------------------------------------------------------
+// TABLE/value-object (C15): a value object names exactly one of rid, action and
+// data; an object naming two of them is ambiguous and must be refused. Every
+// accepting path of the value decoder that found one member present has
+// established that the other two are absent.
+
+func ruleValueObject(c *Ctx) {
+	p := c.P
+	fn := p.Fn("(*codec.Value).UnmarshalJSON")
+	fs := map[*types.Var]string{}
+	for _, q := range []string{"codec.ValueObject.RID", "codec.ValueObject.Action", "codec.ValueObject.Data"} {
+		if f := p.Field(q); f != nil {
+			fs[f] = q[strings.LastIndex(q, ".")+1:]
+		}
+	}
+	if fn == nil || len(fs) != 3 {
+		c.undecided("(*codec.Value).UnmarshalJSON", "anchor", "-", "not found")
+		return
+	}
+	c.inst(1)
+	sp := &Spec{InlineHelpers: true}
+	sp.Classify = func(t *Tracer, fr *Frame, in ssa.Instruction) []Ev {
+		if r, ok := in.(*ssa.Return); ok && fr == t.RootFr && len(r.Results) == 1 {
+			if isNilConst(t.Resolve(fr, r.Results[0]).V) {
+				return []Ev{{Kind: "accept"}}
+			}
+			return []Ev{{Kind: "refuse"}}
+		}
+		return nil
+	}
+	sp.Branch = func(t *Tracer, fr *Frame, i *ssa.If, dir bool) []Ev {
+		x, nn, ok := nilTest(i, dir)
+		if !ok {
+			return nil
+		}
+		f, _ := fieldLoad(t.Resolve(fr, x).V)
+		name, isM := fs[f]
+		if !isM {
+			return nil
+		}
+		if nn {
+			return []Ev{{Kind: name + " present"}}
+		}
+		return []Ev{{Kind: name + " absent"}}
+	}
+	tr := runTrace(p, fn, sp)
+	bad := ""
+	nObj := 0
+	for _, path := range tr.Paths {
+		if !hasKind(path, "accept") {
+			continue
+		}
+		var present, absent []string
+		for _, nm := range []string{"RID", "Action", "Data"} {
+			if hasKind(path, nm+" present") {
+				present = append(present, nm)
+			}
+			if hasKind(path, nm+" absent") {
+				absent = append(absent, nm)
+			}
+		}
+		if len(present) == 0 {
+			continue // not an object, or refused elsewhere
+		}
+		nObj++
+		if len(present) != 1 || len(absent) != 2 {
+			bad = fmt.Sprintf("a value object is accepted with %v present and only %v known absent: an object naming two of rid, action and data is taken for one of them instead of being refused (the malformed message is applied and fanned out): %s", present, absent, tr.FmtPath(path))
+		}
+	}
+	if nObj == 0 {
+		bad = "no accepting path for a value object found"
+	}
+	if tr.Trunc {
+		bad = "path budget exhausted"
+	}
+	c.check(bad == "", fnName(fn), "a value object is accepted only with exactly one of rid, action, data", p.Pos(fn.Pos()), fmt.Sprintf("%d paths, %d accept an object", len(tr.Paths), nObj), bad)
+}
+
+// ---------------------------------------------------------------------------
+// DOM/onready-inline (C16, C07): OnReady runs its callback at once only for a
+// subscription that IS ready (state ≥ ready: it and everything below it is
+// loaded). For anything else the callback goes through the ready-callback
+// walk. A shortcut on a weaker test (the resource and its direct references
+// are loaded) answers a request while deeper references are still loading.
+
+func ruleOnReadyInline(c *Ctx) {
+	p := c.P
+	fn := p.Fn("(*server.Subscription).OnReady")
+	fState := p.Field("server.Subscription.state")
+	kReady := p.ConstInt("server.stateReady", -1)
+	kLast := p.ConstInt("server.stateDeleted", -1)
+	if fn == nil || fState == nil || kReady < 0 || kLast < kReady || len(fn.Params) < 2 {
+		c.undecided("(*server.Subscription).OnReady", "anchor", "-", "not found")
+		return
+	}
+	cb := fn.Params[1]
+	recv := fn.Params[0]
+	c.inst(1)
+	sp := &Spec{InlineHelpers: true}
+	sp.Classify = func(t *Tracer, fr *Frame, in ssa.Instruction) []Ev {
+		if cl, ok := in.(ssa.CallInstruction); ok && !cl.Common().IsInvoke() && cl.Common().StaticCallee() == nil {
+			if _, isB := cl.Common().Value.(*ssa.Builtin); !isB {
+				if r := t.Resolve(fr, cl.Common().Value); r.V == ssa.Value(cb) {
+					return []Ev{{Kind: "cb-now"}}
+				}
+			}
+		}
+		return nil
+	}
+	sp.Branch = func(t *Tracer, fr *Frame, i *ssa.If, dir bool) []Ev {
+		x, op, k, ok := cmpConst(i.Cond)
+		if !ok {
+			return nil
+		}
+		f, base := fieldLoad(x)
+		if f != fState || base == nil {
+			return nil
+		}
+		if rb := t.Resolve(fr, base).V; rb != ssa.Value(recv) {
+			// (the engine's probe of a predicate helper sees the helper's own, unbound receiver)
+			if _, isP := rb.(*ssa.Parameter); !isP || fr == t.RootFr {
+				return nil
+			}
+		}
+		set := satisfying(op, k, dir, kLast+1)
+		ready := len(set) > 0
+		for v := range set {
+			if v < kReady {
+				ready = false
+			}
+		}
+		if ready {
+			return []Ev{{Kind: "is-ready"}}
+		}
+		return nil
+	}
+	tr := runTrace(p, fn, sp)
+	bad := ""
+	nNow := 0
+	for _, path := range tr.Paths {
+		ci := indexKind(path, "cb-now")
+		if ci < 0 {
+			continue
+		}
+		nNow++
+		if !hasKind(path[:ci], "is-ready") {
+			bad = "the callback is run at once on a path that has not established that the subscription is ready: a request is answered while references below the first level are still loading (an HTTP GET renders them as href only, or as malformed JSON): " + tr.FmtPath(path)
+		}
+	}
+	if tr.Trunc {
+		bad = "path budget exhausted"
+	}
+	c.check(bad == "", fnName(fn), "the callback is run at once only for a ready subscription", p.Pos(fn.Pos()), fmt.Sprintf("%d paths, %d run the callback at once, all under state ≥ ready", len(tr.Paths), nNow), bad)
+}
+
+// ---------------------------------------------------------------------------
+// PROV/payload-fresh (C10, C05): a request payload carries one connection's id
+// and token. The bytes a Create…Request function hands out are its own: the
+// result of json.Marshal (a fresh slice per call) or a constant payload without
+// connection data — never the contents of a buffer that is reused (pooled)
+// while the payload waits to be published, where another connection's request
+// can overwrite it.
+
+func rulePayloadFresh(c *Ctx) {
+	p := c.P
+	n := 0
+	for _, fn := range p.Repo {
+		if fn.Parent() != nil || fn.Pkg == nil || fn.Pkg.Pkg.Name() != "codec" || !strings.HasPrefix(fn.Name(), "Create") || !strings.HasSuffix(fn.Name(), "Request") {
+			continue
+		}
+		res := fn.Signature.Results()
+		if res.Len() != 1 {
+			continue
+		}
+		if sl, ok := res.At(0).Type().Underlying().(*types.Slice); !ok || !types.Identical(sl.Elem(), types.Typ[types.Byte]) {
+			continue
+		}
+		n++
+		c.inst(1)
+		bad := ""
+		for _, in := range instrsOf(fn) {
+			r, ok := in.(*ssa.Return)
+			if !ok {
+				continue
+			}
+			v := r.Results[0]
+			if isJSONSource(p, v, 0) {
+				continue
+			}
+			if u, isU := v.(*ssa.UnOp); isU && u.Op == token.MUL {
+				if _, isG := u.X.(*ssa.Global); isG {
+					continue // a constant payload
+				}
+			}
+			bad = "the payload returned at " + p.InstrPos(r) + " is not the fresh result of json.Marshal (nor a constant): bytes of a reused buffer can be overwritten by another connection's request before this one is published — a request goes out under one connection's subject with another connection's id and token"
+		}
+		c.check(bad == "", fnName(fn), "a request payload is a fresh encoding owned by its request", p.Pos(fn.Pos()), "every return is json.Marshal's result or a constant", bad)
+	}
+	if n == 0 {
+		c.viol("codec.Create*Request", "a request payload is a fresh encoding owned by its request", "-", "no payload constructor found")
+	}
+}
